@@ -20,13 +20,10 @@ import (
 	"github.com/caddyserver/caddy/v2"
 	"go.uber.org/zap"
 
-	"github.com/mholt/caddy-l4/layer4"
 	"github.com/mholt/caddy-l4/modules/l4proxy"
-	"github.com/mholt/caddy-l4/modules/l4proxyprotocol"
-	"github.com/mholt/caddy-l4/modules/l4tee"
-	"github.com/mholt/caddy-l4/modules/l4throttle"
 	socks5 "github.com/things-go/go-socks5"
 
+	"verif/sim/hookreg"
 	"verif/sim/simkit"
 	"verif/sim/simnet"
 )
@@ -104,20 +101,13 @@ func (e *Env) install() {
 		}
 		return d + e.TimerLatency
 	}
-	layer4.VerifTimerSkewHook, l4proxy.VerifTimerSkewHook, l4tee.VerifTimerSkewHook, l4throttle.VerifTimerSkewHook, socks5.VerifTimerSkewHook = skew, skew, skew, skew, skew
 	syncp := func(site string) { e.S.Park("t:" + site) }
-	layer4.VerifSyncHook, l4proxy.VerifSyncHook, l4tee.VerifSyncHook, l4throttle.VerifSyncHook, socks5.VerifSyncHook = syncp, syncp, syncp, syncp, syncp
-	layer4.VerifGoHook, layer4.VerifYieldHook, layer4.VerifPickHook = goHook, yield, pick
-	layer4.VerifPoolGetHook, layer4.VerifPoolPutHook = e.Pool.Get, e.Pool.Put
-	l4proxy.VerifPoolGetHook, l4proxy.VerifPoolPutHook = e.Pool.Get, e.Pool.Put
-	l4tee.VerifPoolGetHook, l4tee.VerifPoolPutHook = e.Pool.Get, e.Pool.Put
-	l4throttle.VerifPoolGetHook, l4throttle.VerifPoolPutHook = e.Pool.Get, e.Pool.Put
-	l4proxyprotocol.VerifPoolGetHook, l4proxyprotocol.VerifPoolPutHook = e.Pool.Get, e.Pool.Put
-	l4proxy.VerifGoHook, l4proxy.VerifYieldHook, l4proxy.VerifPickHook = goHook, yield, pick
+	// generic hooks: every instrumented package registers its hook variables (hookreg)
+	for _, h := range hookreg.All {
+		*h.TimerSkew, *h.Sync, *h.Go, *h.Yield, *h.Pick = skew, syncp, goHook, yield, pick
+		*h.PoolGet, *h.PoolPut = e.Pool.Get, e.Pool.Put
+	}
 	l4proxy.VerifDialHook, l4proxy.VerifTLSDialHook = dial, tlsDial
-	l4tee.VerifGoHook, l4tee.VerifYieldHook, l4tee.VerifPickHook = goHook, yield, pick
-	l4throttle.VerifGoHook, l4throttle.VerifYieldHook, l4throttle.VerifPickHook = goHook, yield, pick
-	socks5.VerifGoHook, socks5.VerifYieldHook, socks5.VerifPickHook = goHook, yield, pick
 	socks5.VerifDialHook = dial
 	socks5.VerifListenUDPHook = func(network string, laddr *net.UDPAddr) (*net.UDPConn, error) {
 		e.S.Stat("socks_listen_udp", 1)
@@ -142,19 +132,11 @@ type simDenied struct{}
 func (*simDenied) Error() string { return "simulated: operation not available" }
 
 func (e *Env) uninstall() {
-	layer4.VerifTimerSkewHook, l4proxy.VerifTimerSkewHook, l4tee.VerifTimerSkewHook, l4throttle.VerifTimerSkewHook, socks5.VerifTimerSkewHook = nil, nil, nil, nil, nil
-	layer4.VerifSyncHook, l4proxy.VerifSyncHook, l4tee.VerifSyncHook, l4throttle.VerifSyncHook, socks5.VerifSyncHook = nil, nil, nil, nil, nil
-	layer4.VerifGoHook, layer4.VerifYieldHook, layer4.VerifPickHook = nil, nil, nil
-	layer4.VerifPoolGetHook, layer4.VerifPoolPutHook = nil, nil
-	l4proxy.VerifPoolGetHook, l4proxy.VerifPoolPutHook = nil, nil
-	l4tee.VerifPoolGetHook, l4tee.VerifPoolPutHook = nil, nil
-	l4throttle.VerifPoolGetHook, l4throttle.VerifPoolPutHook = nil, nil
-	l4proxyprotocol.VerifPoolGetHook, l4proxyprotocol.VerifPoolPutHook = nil, nil
-	l4proxy.VerifGoHook, l4proxy.VerifYieldHook, l4proxy.VerifPickHook = nil, nil, nil
+	for _, h := range hookreg.All {
+		*h.TimerSkew, *h.Sync, *h.Go, *h.Yield, *h.Pick = nil, nil, nil, nil, nil
+		*h.PoolGet, *h.PoolPut = nil, nil
+	}
 	l4proxy.VerifDialHook, l4proxy.VerifTLSDialHook = nil, nil
-	l4tee.VerifGoHook, l4tee.VerifYieldHook, l4tee.VerifPickHook = nil, nil, nil
-	l4throttle.VerifGoHook, l4throttle.VerifYieldHook, l4throttle.VerifPickHook = nil, nil, nil
-	socks5.VerifGoHook, socks5.VerifYieldHook, socks5.VerifPickHook = nil, nil, nil
 	socks5.VerifDialHook, socks5.VerifListenUDPHook, socks5.VerifResolveHook = nil, nil, nil
 }
 
